@@ -3,14 +3,14 @@ from specs import R
 SPEC = dict(
     level="exploration",
     level_text="Runtime monitor at two layers while real threads race: (1) every user aio is wrapped in a record whose callback checks no overlap, callbacks <= submissions, result-code legitimacy (NNG_ETIMEDOUT never before the configured duration, cancel/abort/stop/closed codes only if issued), no callback after nng_aio_stop/free returned, exactly one callback per submission at the end, and message conservation for receives; (2) guarded shadow state inside core/aio.c and core/taskq.c (second completion of one operation, start/reset while active, busy-count underflow) covers the library's internal aios. Interleavings are sampled: seeded jitter at every lock/cv point or a long delay at one named race window (abort/finish after unlock, expire before/between cancels, stop before wait, task before enqueue/before cb), thread-pool shapes from {1 expire, 2 task} to {8,16}; repeated under TSan in the thorough tier.",
-    level_note="Sampled schedules, real time: a race window that no named site or lock boundary brackets can be missed. Operation kinds driven: sleep, harness-implemented provider (public nng_aio_start/finish), socket recv and send (pair1, with delivery conservation), receive of pull/sub/bus/pair0/raw rep, send of push/pair0/raw req, REQ context send, REP context recv, dialer_start_aio (reachable, refused, nobody listening), stream accept, stream recv, stream dial (tcp by address and by name, ipc, refused) with immediate re-dial from the callback; actions cancel, abort, stop, close of the owner, and nng_aio_free of the aio in flight; after stop/wait/free returned no callback of that aio may still be executing. 'Never early' uses a 1 ms allowance for the library's millisecond clock.",
+    level_note="Sampled schedules, real time: a race window that no named site or lock boundary brackets can be missed. Operation kinds driven: sleep, harness-implemented provider (public nng_aio_start/finish), socket recv and send (pair1, with delivery conservation), receive of pull/sub/bus/pair0/raw rep, send of push/pair0/raw req, REQ context send, REP context recv, dialer_start_aio (reachable, refused, nobody listening), stream accept, stream recv, stream dial (tcp by address and by name, ipc, refused) with immediate re-dial from the callback, surveyor receive (socket and contexts; receives posted late in a survey are clamped to its deadline, later ones are not); a third of the aios have their timeout set once and are re-used without setting it again; actions cancel, abort, stop, close of the owner, and nng_aio_free of the aio in flight; after stop/wait/free returned no callback of that aio may still be executing. 'Never early' uses a 1 ms allowance for the library's millisecond clock.",
     technique="runtime exactly-once monitor (boundary records + in-library shadow state) under schedule perturbation, ASan/UBSan, TSan",
     rule="a case = one operation kind, 1-6 aios with seeded timeout / action (cancel, abort, stop, close, none) issued around the nominal completion instant, seeded re-submission from inside the callback, a completer thread and one perturbation policy; a class is (kind, result) or (kind, action, outcome, perturbation site) actually observed in a callback",
     assumptions=["interleavings are sampled, not enumerated", "wall-clock is used only one-sidedly (never earlier than T-1ms)"],
     quick=dict(runs=[R("c02_aio", "asan", 8, 260, "mixed", 600),
                      R("c02_aio", "asan", 4, 300, "provider", 600)],
                floor={"operations": 3000, "@classes": 60, "hook_aio_finish": 3000, "not_running_checks": 1500, "free_in_flight": 100,
-                      "@class:dial-aio/ok": 1, "@class:dial-aio/timedout": 1, "@class:proto-recv:*/ok": 4, "@class:proto-send:*/ok": 3, "@class:req-ctx-send/*": 5, "@class:stream-dial/ok": 1, "@class:stream-dial/canceled": 1, "@class:stream-dial/timedout": 1},
+                      "@class:dial-aio/ok": 1, "@class:dial-aio/timedout": 1, "@class:proto-recv:*/ok": 4, "@class:proto-send:*/ok": 3, "@class:req-ctx-send/*": 5, "@class:stream-dial/ok": 1, "@class:stream-dial/canceled": 1, "@class:stream-dial/timedout": 1, "@class:surveyor-recv/ok": 1, "@class:surveyor-recv/timedout": 1, "survey_deadline_timeouts": 10},
                eval_key="operations"),
     thorough=dict(runs=[R("c02_aio", "asan", 16, 1500, "mixed", 3000),
                         R("c02_aio", "asan", 8, 2500, "provider", 3000),
